@@ -150,7 +150,7 @@ func cmdBatch(args []string) int {
 	out := fs.String("out", ".", "output directory")
 	nsites := fs.Int("sites", 4096, "number of yield sites")
 	free := fs.Bool("free", false, "uncontrolled mode for every run")
-	wdog := fs.Float64("watchdog", 60, "seconds without progress before giving up")
+	wdog := fs.Float64("watchdog", 25, "seconds without progress before giving up")
 	maxViol := fs.Int("maxviol", 12, "violating runs to record")
 	tag := fs.String("tag", "", "suffix of the output file names (default: worker index)")
 	_ = fs.Parse(args)
@@ -279,6 +279,8 @@ type ReplayOutcome struct {
 	Steps      int64       `json:"steps"`
 	Switches   int64       `json:"switches"`
 	Stray      int64       `json:"stray"`
+	Consumed   int         `json:"consumed"`
+	Attempts   int         `json:"attempts"`
 }
 
 func cmdReplay(args []string) int {
@@ -300,6 +302,8 @@ func cmdReplay(args []string) int {
 		rr := runSpec(spec, nil, rl)
 		out.TraceHash = fmt.Sprintf("%016x", rr.Stat.TraceHash)
 		out.Steps, out.Switches, out.Stray = rr.Stat.Steps, rr.Stat.Switches, rr.Stat.Stray
+		out.Consumed = rr.Stat.Consumed
+		out.Attempts = k + 1
 		out.Infra = append(out.Infra, rr.Infra...)
 		for _, v := range rr.Violations {
 			if v.Class == "harness-race" {
